@@ -169,6 +169,18 @@ PROPS["C10"] = {
     ],
 }
 
+# ---------------------------------------------------------------- C12 (sequential kernel only) / C02 kernels
+PROPS["C12"] = {
+    "level_text": "Sequential kernel only: description.Media.URL (the client's control-attribute resolution, executed with the real net/url code) on a control attribute made of a fixed prefix/suffix and 1..2 (quick) / 3 (thorough) fully symbolic bytes never returns (nil, nil) and never panics, so the client always has either a URL for SETUP or an error to report.",
+    "level_note": "Everything else of C12 (API calls returning within timeouts, Close leaving nothing behind, behaviour under dropped/delayed responses, the 2500-line run loop) is scheduling and I/O and is NOT covered; regexp matching is done natively on concrete subjects and, for the symbolic control attribute, by the literal pre-filter (no '@' => no match, holes exclude '@').",
+    "runs": [R("media-url", "pkg/description", "pkg/description", ["ZzC12MediaURL"], flags={"concoff": True}, quick_params={"HL": 2}, thorough_params={"HL": 3})],
+}
+PROPS["C02"] = {
+    "level_text": "Two sequential kernels on the real code: (1) ServerSession.handleRequestInner state guard: for every session state and every state-changing method the request is refused with ErrServerInvalidState (status >= 400, state untouched, application not called) exactly when (method, state) is outside the RFC 2326 table written in the harness; a request refused by validation or by the application leaves the state unchanged; a request from another connection than the pinned one is refused in every state. (2) ServerConn.handleRequestOuter: exactly one response is written per request for all eleven methods, with the request's CSeq echoed (symbolic value), 400 without CSeq.",
+    "level_note": "Outside: request sequences (only one step from each constructed state), successful SETUP/PLAY/RECORD transitions through the stream/UDP plumbing, routing by Session header in Server.run (channels), timers, keep-alive, exactly-once session close. Goroutines/timers are not executed (GOSTUB).",
+    "runs": [R("state-guard", ".", "root", ["ZzC02StateGuard", "ZzC02HandlerRefuses", "ZzC02OneResponse"], params={"GOSTUB": 1}, extras=_EXTRAS, flags={"concoff": True})],
+}
+
 # ---------------------------------------------------------------- C14
 PROPS["C14"] = {
     "level_text": "One inductive step of the real reorder buffer (ProcessPacket2 / reorder) from EVERY pre-state satisfying the representation invariant: last delivered sequence number, packet sequence number and all counters are free 16/64-bit variables (so every wrap position is covered at once), every occupancy pattern of the buffer and every restart-counter value is explored, for buffer sizes 1,2,4 (quick) and 8 (thorough). The post-state and the returned packets are compared with a reference receiver written in the harness: strictly increasing delivery modulo 2^16, no duplicates, displaced packets inside the window are buffered not dropped, lost = skipped sequence numbers, counters, cycle counting, restart after B+1 old packets, invariant re-established. Because the invariant is inductive, the step result covers arrival histories of any length. Reliable mode and the receiver-report assembly (extended highest sequence number, 24-bit clamp, fraction) are separate obligations over all 16/32/64-bit values.",
@@ -218,5 +230,4 @@ NOT_APPLICABLE = {
     "C12": "every API call returning within its timeout, Close leaving no goroutine or socket: scheduling and I/O facts of a 2500-line channel-driven run loop (DESIGN.md §7)",
     "C13": "quantifies over schedules and crash points of real goroutines; no sequential kernel says anything about bounded-time Close or leaked goroutines (DESIGN.md §7)",
 }
-NOT_APPLICABLE["C02"] = "the state-guard kernel of ServerSession.handleRequestInner needs the session/stream/UDP plumbing of the root package as symbolic object graph; not built in this session; request serialisation, timers and session lifetime are goroutine/channel facts outside the engine (DESIGN.md §6 C02)"
 NOT_APPLICABLE["C05"] = "SDP text marshalling/parsing (pion/sdp + the 750-line sdpunmarshaler string state machine) is path-explosive for the symbolic interpreter; the struct-level round trip was not built in this session (DESIGN.md §6 C05)"
